@@ -6,7 +6,9 @@ dump of (writer instance, process-global pycaption state) - same state, same fut
   (1) the deep structural snapshot of every pooled caption set equals the snapshot taken before (also when the writer
       raised);
   (2) the output (or the exception type) equals that of the same write executed alone in a pristine interpreter;
-  (3) the process-global state (module globals, class attributes, default arguments) is unchanged.
+  (3) the process-global state (module globals, class attributes, default arguments) is re-digested; if the history
+      changed it, every write of the menu is probed with FRESH writer objects in the polluted process and compared with
+      the pristine outputs (a change that alters no output is counted, not reported), then pycaption is reloaded.
 The whole exploration is repeated under several PYTHONHASHSEED values; pristine references are computed under seed 0,
 so outputs are also compared across hash seeds.
 """
@@ -38,7 +40,7 @@ MANIFEST = {
 }
 
 WRITERS = ["SRTWriter", "WebVTTWriter", "MicroDVDWriter", "DFXPWriter", "SinglePositioningDFXPWriter", "LegacyDFXPWriter", "SAMIWriter", "SCCWriter"]
-SETS = ["plain", "spans", "unbalanced", "px-novideo", "two-langs", "empty", "scc", "styled", "unbalanced-two", "unsorted"]
+SETS = ["plain", "spans", "unbalanced", "px-novideo", "two-langs", "empty", "scc", "styled", "unbalanced-two", "unsorted", "spans-redefined"]
 SEEDS = {"quick": ["0", "5"], "thorough": ["0", "1", "2", "3", "5", "8", "13", "21"]}
 VERIF = os.path.dirname(os.path.dirname(os.path.dirname(os.path.abspath(__file__))))
 
@@ -75,6 +77,11 @@ def make_set(name):
     if name == "spans":
         cs = CaptionSet({"en-US": CaptionList([cap(0, [T("a "), S(True, {"italics": True}), T("b"), S(False, {"italics": True}), T(" c")]), cap(1, [S(True, {"class": "c1"}), T("d"), S(False, {"class": "c1"})])])})
         cs.set_styles({"c1": {"color": "red", "italics": True}})
+        return cs
+    if name == "spans-redefined":
+        # the same class name and the same layout-less structure as "spans", but the class means something else
+        cs = CaptionSet({"en-US": CaptionList([cap(0, [T("a "), S(True, {"bold": True}), T("b"), S(False, {"bold": True}), T(" c")]), cap(1, [S(True, {"class": "c1"}), T("d"), S(False, {"class": "c1"})])])})
+        cs.set_styles({"c1": {"color": "blue", "bold": True, "underline": True}})
         return cs
     if name == "unbalanced":
         return CaptionSet({"en-US": CaptionList([cap(0, [S(True, {"italics": True}), T("never closed")]), cap(1, [T("next")])])})
@@ -163,6 +170,35 @@ def hist_class(h2):
     return "after:" + earlier[-1]
 
 
+def restore_globals():
+    """reload pycaption so that later histories start from pristine process-global state"""
+    for m in [m for m in sys.modules if m == "pycaption" or m.startswith("pycaption.")]:
+        del sys.modules[m]
+    import pycaption  # noqa: F401
+    from pycaption.dfxp import extras  # noqa: F401
+
+
+def probe_after_pollution(acc, wname, init, hist, ops, changed_keys):
+    """after `hist` polluted the process: does any write of the menu, done with a fresh writer object, now differ?"""
+    hit = False
+    for sname, opt in ops:
+        # every probe starts from exactly the state the history leaves behind (probes must not pollute each other)
+        restore_globals()
+        writer = new_writer(wname, {"init": init})
+        pool = {}
+        for s_, o_ in hist:
+            pool.setdefault(s_, make_set(s_))
+            do_write(writer, wname, pool[s_], o_)
+        res, out = do_write(new_writer(wname, opt), wname, make_set(sname), opt)
+        ref = pristine(wname, sname, opt)
+        acc.transitions += 1
+        if list(res) != ref[:2]:
+            hit = True
+            case = {"w": wname, "init": init, "hist": [[s_, o_] for s_, o_ in hist], "probe": [sname, opt], "_env": {"PYTHONHASHSEED": os.environ.get("PYTHONHASHSEED", "0")}}
+            acc.violation(f"C09/{wname}/fresh-writer-output-differs-after-history/{hist_class(hist + [(sname, opt)])}", case, {"got": res, "pristine": ref[:2], "global_state_changed": changed_keys[:6]})
+    return hit
+
+
 def explore_writer(acc, wname, depth, states_out):
     """BFS over histories on one shared instance per option-set 'init' (constructor options make different instances)"""
     import pycaption  # noqa: F401  (load every pycaption module before the first global-state snapshot)
@@ -210,9 +246,16 @@ def explore_writer(acc, wname, depth, states_out):
                         bad = True
                     g1 = canon.global_state()
                     if g1 != g0:
-                        acc.violation(f"C09/{wname}/process-global-state-changed/" + "+".join(canon.diff_state(g0, g1))[:120], case, {"changed": canon.diff_state(g0, g1)})
+                        # the history changed process-global pycaption state: that alone is not a violation (a harmless
+                        # cache would do the same); probe every write of the menu with FRESH writer objects in this
+                        # process and compare with the pristine outputs
+                        changed_keys = canon.diff_state(g0, g1)
+                        hit = probe_after_pollution(acc, wname, init, h2, my_ops, changed_keys)
+                        acc.count("histories_that_changed_global_state" + ("" if hit else "_but_no_output"))
                         bad = True
-                        g0 = g1
+                        restore_globals()
+                        g0 = canon.global_state()
+                        g1 = g0
                     acc.case((wname, init_js, h2, os.environ.get("PYTHONHASHSEED")), len(h2) >= 2, res, {"writer": wname, "init": init, "history": h2, "result": res} if len(h2) == depth else None)
                     st = canon.digest((canon.dump(writer), sorted(g1.items())))
                     states_out.add(st)
@@ -251,8 +294,10 @@ def cross_pairs(acc, states_out):
                         acc.violation(f"C09/{wb}/input-modified/{sb}", case, None)
                     g1 = canon.global_state()
                     if g1 != g0:
-                        acc.violation(f"C09/{wa}+{wb}/process-global-state-changed", case, {"changed": canon.diff_state(g0, g1)})
-                        g0 = g1
+                        acc.count("cross_pairs_that_changed_global_state")
+                        restore_globals()
+                        g0 = canon.global_state()
+                        g1 = g0
                     acc.case(("cross", wa, sa, wb, sb, os.environ.get("PYTHONHASHSEED")), True, res, None)
                     states_out.add(canon.digest(sorted(g1.items())))
 
@@ -314,11 +359,21 @@ def replay(case):
             outv.append({"sig": f"C09/{wb}/output-differs-after-other-writer/{wa}", "detail": {"got": res, "pristine": ref[:2]}})
         if canon.digest(pool[sb]) != before:
             outv.append({"sig": f"C09/{wb}/input-modified/{sb}", "detail": None})
-        if canon.global_state() != g0:
-            outv.append({"sig": f"C09/{wa}+{wb}/process-global-state-changed", "detail": None})
         return outv
     wname, init = case["w"], case["init"]
     h2 = [(s, o) for s, o in case["hist"]]
+    if "probe" in case:
+        writer = new_writer(wname, {"init": init})
+        pool = {}
+        for sname, opt in h2:
+            pool.setdefault(sname, make_set(sname))
+            do_write(writer, wname, pool[sname], opt)
+        sname, opt = case["probe"]
+        res, out = do_write(new_writer(wname, opt), wname, make_set(sname), opt)
+        ref = pristine(wname, sname, opt)
+        if list(res) != ref[:2]:
+            return [{"sig": f"C09/{wname}/fresh-writer-output-differs-after-history/{hist_class(h2 + [(sname, opt)])}", "detail": {"got": res, "pristine": ref[:2]}}]
+        return []
     g0 = canon.global_state()
     writer = new_writer(wname, {"init": init})
     pool = {}
@@ -337,7 +392,4 @@ def replay(case):
     ref = pristine(wname, sname, opt)
     if list(res) != ref[:2]:
         outv.append({"sig": f"C09/{wname}/output-differs-from-pristine-write/{hist_class(h2)}", "detail": {"got": res, "pristine": ref[:2]}})
-    g1 = canon.global_state()
-    if g1 != g0:
-        outv.append({"sig": f"C09/{wname}/process-global-state-changed/" + "+".join(canon.diff_state(g0, g1))[:120], "detail": canon.diff_state(g0, g1)})
     return outv
